@@ -11,7 +11,8 @@ from .. import core, lmi_common as lc
 
 THEOREMS = ['Pk.C10.C10_core', 'Pk.C10.C10_dissipation', 'Pk.C10.W_nonneg', 'Pk.C10.C10_l2_gain',
             'Pk.C10.C10_l2_gain_lmi', 'Pk.C10.brl_spec_block', 'Pk.C10.C10_stable', 'Pk.C10.brl_P_posDef', 'Pk.C10.C10_series_post', 'Pk.C10.C10_series_pre', 'Pk.C10.C10_units',
-            'Pk.C10.C10_dmdc_lift', 'Pk.C10.C10_dmdc_l2_gain']
+            'Pk.C10.C10_dmdc_lift', 'Pk.C10.C10_dmdc_l2_gain',
+            'Pk.C10.C10_resolvent_exists', 'Pk.C10.C10_hinf_norm', 'PkLA.brl_freq_real', 'PkLA.brl_freq_complex']
 
 
 def dyadic_weight(rng, kind, order=None):
@@ -291,10 +292,9 @@ def run(ctx):
                 'loop correspondence; (iii) cvxopt fits of both families with and without weights: stability and an '
                 'independently computed H-infinity norm (dense frequency sweep + refinement) vs gamma_')
     ctx.explanation = ('theorems C10_* (bounded-real core, dissipation, l2-gain over every horizon with no side condition, '
-                       'stability from the 2x2 sub-block via C09); correspondence of LMI structure, series connection and '
+                       'stability from the 2x2 sub-block via C09, frequency-domain bound |G(z)u| <= gamma|u| on the whole unit circle: C10_hinf_norm); correspondence of LMI structure, series connection and '
                        'loop; oracle: norm <= gamma_(1+1e-4), stability, monotone log')
     ctx.assumptions = ["an 'optimal' solver answer satisfies its constraints up to tolerance (measured by the oracle)",
-                       'time-domain l2 gain over all horizons = H-infinity norm (Parseval): not proved',
                        'scipy zpk -> state space and discretisation in LmiHinfZpkMeta: trusted']
     ctx.proof_obligations('Properties.C10', THEOREMS)
     drv = ctx.get_driver()
